@@ -5,11 +5,11 @@ from harness import clientsim as cs
 from harness.clientsim import TAGS
 
 PROP = "C06"
-GEN = []
+GEN = ["Wrappers"]
 VO = ["Properties/C06.vo", "Extract/D_Client.vo", "Extract/O_C06.vo"]
 MODULE = "Properties.C06"
 THEOREMS = ["c06_invariant", "c06_sequences", "c06_inv_meaning", "c06_failure_closes_fetch", "c06_failure_closes_store",
-            "c06_failure_closes_misc", "c06_connect", "c06_fallback_skip", "c06_fallback_success"]
+            "c06_failure_closes_misc", "c06_connect", "c06_fallback_skip", "c06_fallback_success", "c06_stack_timeouts"]
 DRIVER = "D_Client"
 ORACLE = "O_C06"
 TECHNIQUE = ("Coq proof in a Hoare logic over the Client model: a lifecycle monitor automaton (one open socket, timeout and "
@@ -163,12 +163,69 @@ def search(ctx):
         if why:
             found.append({"clause": why, "input": {"cfg": repr(c), "ops": repr(ops), "script": repr(sc), "choices": repr(ch)},
                           "size": len(sc) + len(ch), "case": repr((c, ops, sc, ch, rp))})
-    ctx.search_summary = {"runs": len(cl), "call_boundaries_checked_by_monitor": n_bound}
+    f2, n_stack = stack_probe(ctx)
+    found += f2
+    ctx.search_summary = {"runs": len(cl), "call_boundaries_checked_by_monitor": n_bound, "pooled_and_hash_stack_runs": n_stack}
     found.sort(key=lambda v: v["size"])
     return found[:1]
 
 
+STACK_CONFIGS = [dict(tcp=False), dict(tcp=True, naddr=2), dict(tcp=False, ct=3.0, it=None), dict(tcp=True, naddr=1, ct=None, it=7.0),
+                 dict(tcp=True, naddr=1, tls=True), dict(tcp=False, nodelay=True, ct=0.25, it=30.0)]
+
+
+def stack_makers():
+    from pymemcache.client.base import PooledClient
+    from pymemcache.client.hash import HashClient
+    return [("PooledClient(max_pool_size=1)", lambda srv, kw: PooledClient(srv, max_pool_size=1, **kw)),
+            ("HashClient", lambda srv, kw: HashClient([srv], **kw)),
+            ("HashClient(use_pooling=True)", lambda srv, kw: HashClient([srv], use_pooling=True, max_pool_size=1, **kw))]
+
+
+def stack_cases():
+    """a Client inside a pool or a hash client: the same lifecycle monitor on the whole trace (with one pooled connection at a time the
+    stack owns at most one socket), for the connection made first and the one made after a failed call"""
+    out = []
+    get, st = ((3, b"k", None), b"VALUE k 0 1\r\nv\r\nEND\r\n"), ((0, 0, b"k", b"v", 0, False, None), b"STORED\r\n")
+    for cfg in STACK_CONFIGS:
+        c = dict(cfg, default_noreply=False)
+        ops = [st[0], get[0], get[0], st[0]]
+        rp = [st[1], get[1], get[1], st[1]]
+        out.append((c, ops, [], [], rp))
+        for pos in range(0, 9):
+            out.append((c, ops, [0] * pos + [(TAGS["OSError"],)], [], rp))
+        for rpos in range(0, 3):
+            out.append((c, ops, [], [1 << 20] * rpos + [(TAGS["SocketTimeout"],)], rp))
+    return out
+
+
+def stack_probe(ctx):
+    found, n = [], 0
+    for name, mk in stack_makers():
+        for c, ops, sc, ch, rp in stack_cases():
+            n += 1
+            r = cs.run_impl(c, ops, sc, ch, rp, mk)
+            trace = r[1]
+            ok, first, open_ = ctx.oracle.call(1, bool(c.get("tls")), [tuple(e) for e in trace])[1]
+            if not ok:
+                found.append({"clause": "%s: lifecycle discipline broken at event %d: %r (settimeout events carry which timeout was set: 0 the connect "
+                                        "timeout, 1 the I/O timeout, 2 anything else)" % (name, first, trace[first]),
+                              "input": {"stack": name, "cfg": repr(c), "ops": repr(ops), "script": repr(sc), "choices": repr(ch)},
+                              "size": len(sc) + len(ch), "case": None, "stack_case": repr((name, c, ops, sc, ch, rp))})
+    return found, n
+
+
 def replay(ctx, obj):
+    v = obj.get("violation")
+    if v and v.get("stack_case"):
+        name, c, ops, sc, ch, rp = eval(v["stack_case"])
+        mk = dict(stack_makers())[name]
+        r = cs.run_impl(c, ops, sc, ch, rp, mk)
+        ok, first, open_ = ctx.oracle.call(1, bool(c.get("tls")), [tuple(e) for e in r[1]])[1]
+        for e in r[1]:
+            print("  ", e)
+        print("monitor:", "ok" if ok else "tripped at event %d" % first)
+        return not ok
     v = obj.get("violation")
     if not v or not v.get("case"):
         return None
